@@ -176,3 +176,51 @@ Print Assumptions C08_concretisation.
 Theorem C08_power_on_wf : forall nl, st_wf nl (power_on nl).
 Proof. exact power_on_wf. Qed.
 Print Assumptions C08_power_on_wf.
+
+(* ------------------------------------------------------------------ *)
+(* circuit level WITH memories (NetMemDefs.v: NetDefs extended by Node_Memory / Node_MemPort with
+   the port semantics of MemDefs.v; the tie of C07's certificates validates this cycle
+   semantics against the real simulator) *)
+From Gatery Require Import MemDefs MemProofsCompat MachineCert NetMemDefs NetMemRefine.
+
+(* for EVERY netlist with memories whose ports are consistent, every schedule, and initial
+   register AND memory contents and stimulus sequences that never contradict each other, the
+   pin values never contradict each other in any cycle *)
+Theorem C08_circuit_with_memories : forall mw nl sc s0 s0' sigma sigma',
+  mnl_wf mw nl -> mst_wf mw nl s0 -> mst_wf mw nl s0' -> ms_rel s0 s0' ->
+  (forall t, ins_rel (sigma t) (sigma' t)) ->
+  forall t, Forall2 bv_compat (mout_from nl sc s0 sigma t) (mout_from nl sc s0' sigma' t).
+Proof. exact mrun_compat. Qed.
+Print Assumptions C08_circuit_with_memories.
+
+(* the property's wording including "undefined initial ... memory contents": concretising
+   undefined stimulus bits and undefined power-on memory words never flips a pin bit that the
+   abstract run reports as defined *)
+Theorem C08_concretisation_with_memories : forall mw nl sc mems0 mems0' sigma sigma',
+  mnl_wf mw nl ->
+  (forall mem, mem_wf (mw mem) (nth mem mems0 [])) -> (forall mem, mem_wf (mw mem) (nth mem mems0' [])) ->
+  Forall2 (Forall2 bv_le) mems0 mems0' ->
+  (forall t, Forall2 bv_le (sigma t) (sigma' t)) ->
+  forall t, Forall2 bv_compat (mout_at sc sigma (machine_of nl mems0) t) (mout_at sc sigma' (machine_of nl mems0') t).
+Proof. exact mrun_concretisation. Qed.
+Print Assumptions C08_concretisation_with_memories.
+
+(* the consistency hypothesis is decidable on a dumped netlist *)
+Theorem C08_memory_netlist_wf_decidable : forall nl, mnl_wfb nl = true -> mnl_wf (port_width_of nl) nl.
+Proof. exact mnl_wfb_sound. Qed.
+Print Assumptions C08_memory_netlist_wf_decidable.
+
+(* non-vacuity: a write port followed by a read port that forwards from it, on a 2-bit wide memory *)
+Example ex_mem_netlist_wf :
+  let cfg := MkCfg 2 1 UB_Undefined false in
+  let nl := [ mk_mnode (MBase (NPinIn 1 0)) [];                       (* 0: address *)
+              mk_mnode (MBase (NPinIn 2 1)) [];                       (* 1: write data *)
+              mk_mnode (MBase (NPinIn 1 2)) [];                       (* 2: write enable *)
+              mk_mnode MMemory [];                                    (* 3 *)
+              mk_mnode (MMemPort 0 cfg false true []) [Some (2,0); Some (2,0); Some (0,0); Some (1,0)];   (* 4: write port *)
+              mk_mnode (MMemPort 0 cfg true false [4]) [None; None; Some (0,0); None];                    (* 5: read port after the write *)
+              mk_mnode (MBase (NPinOut 2)) [Some (5,0)] ] in
+  mnl_wfb nl = true /\
+  moutputs nl (mcomb_eval nl (mpower_on nl [[ [B0;B0]; [B1;B0] ]]) [[B1]; [B1;B1]; [B1]]) = [[B1;B1]] /\
+  moutputs nl (mcomb_eval nl (mpower_on nl [[ [B0;B0]; [B1;B0] ]]) [[B1]; [B1;B1]; [B0]]) = [[B1;B0]].
+Proof. vm_compute. repeat split. Qed.
